@@ -55,6 +55,53 @@ theorem C47_removed_full_false : ¬ C47_removed_full false := by
   revert this
   decide
 
+/-! ### expandEnv -/
+
+/-- the scan of `expandEnv` always ends: its only errors are unset variables -/
+theorem expandEnv_err_is_unset (env : String → Option String) (tol : Bool) (s : String) (e : ExpErr)
+    (h : expandEnv env tol s = .error e) : ∃ n, e = .unset n := by
+  unfold expandEnv at h
+  have h1 := map_error _ _ _ h
+  cases e with
+  | unset n => exact ⟨n, rfl⟩
+  | fuel => exact absurd h1 (expandGo_no_fuel env tol _ _ (by rw [String.length_toList]; omega))
+
+/-- with errors tolerated `expandEnv` never fails (unset references are kept as they are) -/
+theorem expandEnv_tolerant (env : String → Option String) (s : String) :
+    ∃ v, expandEnv env true s = .ok v := by
+  cases h : expandEnv env true s with
+  | ok v => exact ⟨v, rfl⟩
+  | error e =>
+    obtain ⟨n, rfl⟩ := expandEnv_err_is_unset env true s e h
+    exfalso
+    unfold expandEnv at h
+    have h1 := map_error _ _ _ h
+    -- no branch of the tolerant scan produces `unset`
+    have : ∀ (fuel : Nat) (l : List Char), expandGo env true fuel l ≠ .error (.unset n) := by
+      intro fuel
+      induction fuel with
+      | zero => intro l hh; simp [expandGo] at hh
+      | succ f ih =>
+        intro l hh
+        cases l with
+        | nil => simp [expandGo] at hh
+        | cons c rest =>
+          unfold expandGo at hh
+          split at hh
+          · split at hh
+            · exact ih _ (map_error _ _ _ hh)
+            · simp only [if_true] at hh
+              exact ih _ (map_error _ _ _ hh)
+          · exact ih _ (map_error _ _ _ hh)
+    exact this _ _ h1
+
+/-- a text without `$` is copied unchanged -/
+theorem expandEnv_plain (env : String → Option String) (tol : Bool) (s : String) (h : ∀ c ∈ s.toList, c ≠ '$') :
+    expandEnv env tol s = .ok s := by
+  unfold expandEnv
+  rw [expandGo_plain env tol s.toList (s.length + 1) (by rw [String.length_toList]; omega) h]
+  simp [Except.map]
+
 /-! ### the reload decision, for one `apply` -/
 
 /-- **reload iff**: an `apply` that returns without error calls the reload endpoint exactly when
